@@ -153,7 +153,7 @@ static void continuous_families(unsigned long long& unit)
 		continuous("Maxwell_Boltzmann", mc::dec(m), h, [=](double x) { return PDF_Maxwell_Boltzmann(x, m); }, [=](double x) { return CDF_Maxwell_Boltzmann(x, m); }, 4e-15);
 	}
 	// chi-square
-	for(double dof : {0.5, 1.0, 2.0, 3.0, 10.0, 50.0, 200.0, 342.0, 344.0, 400.0})
+	for(double dof : {0.5, 1.0, 2.0, 3.0, 10.0, 50.0, 200.0, 342.0, 344.0, 400.0, 1.01, 1.5, 2.5, 2.99, 7.3, 0.99})
 	{
 		if(!mc::mine(unit++)) continue;
 		double top = dof + 14 * std::sqrt(2 * dof) + 40;
@@ -200,7 +200,7 @@ static void discrete_families(unsigned long long& unit)
 	for(unsigned n = 0; n <= 170; n++)
 	{
 		if(!mc::mine(unit++)) continue;
-		for(double p : {0.0, 1e-3, 0.1, 0.5, 0.9, 1.0})
+		for(double p : {0.0, 1e-3, 0.1, 0.5, 0.9, 1.0, 0.99, 0.999, 1 - 1e-9, 1e-9})
 		{
 			ld sum = 0;
 			double prevc = 0;
